@@ -79,6 +79,47 @@ bool read_next_or_end(basic_staj_cursor<CharT>& cursor, std::error_code& ec)
     return (cursor.current().event_type() == staj_events::end_object) ? true : false; 
 }
 
+// The current event is the key of a member that is not described by the traits. 
+// Skips the key and its value, including any nested arrays and objects, and 
+// returns true if the enclosing object ends there.
+template <typename CharT>
+bool skip_member_or_end(basic_staj_cursor<CharT>& cursor, std::error_code& ec)
+{ 
+    cursor.next(ec); 
+    if (ec) 
+    { 
+        return true; 
+    } 
+    std::size_t depth = 0;
+    do
+    {
+        const staj_events event_type = cursor.current().event_type();
+        if (is_begin_container(event_type))
+        {
+            ++depth;
+        }
+        else if (is_end_container(event_type))
+        {
+            if (depth == 0)
+            {
+                ec = conv_errc::conversion_failed;
+                return true;
+            }
+            --depth;
+        }
+        if (depth > 0)
+        {
+            cursor.next(ec); 
+            if (ec) 
+            { 
+                return true; 
+            } 
+        }
+    } 
+    while (depth > 0);
+    return read_next_or_end(cursor, ec);
+}
+
 template <std::size_t N>
 std::size_t find_first_not_set(const std::bitset<N>& indices)
 {
@@ -462,7 +503,7 @@ is_optional_value_set(const T&)
 #define JSONCONS_ALL_MEMBER_DECODE(Prefix, P2,P3,Member, Count) JSONCONS_ALL_MEMBER_DECODE_LAST(Prefix, P2,P3,Member, Count)
 #define JSONCONS_ALL_MEMBER_DECODE_LAST(Prefix, P2,P3,Member, Count) \
     if (count++ >= num_params) { \
-        is_end = read_next_or_end(cursor, ec); \
+        is_end = skip_member_or_end(cursor, ec); \
         if (ec) \
         { \
             return result_type{jsoncons::unexpect, ec, cursor.line(), cursor.column()}; \
@@ -475,6 +516,11 @@ is_optional_value_set(const T&)
             } \
             return result_type{std::move(val)}; \
         } \
+        key = get_key(cursor, ec); \
+        if (ec) { \
+            return result_type{jsoncons::unexpect, ec, cursor.line(), cursor.column()}; \
+        } \
+        count = 0; \
     } \
     else if (!indices[num_params-Count] && key == object_names<value_type,char_type>::name(num_params-Count)) { \
         cursor.next(ec); \
@@ -512,7 +558,7 @@ is_optional_value_set(const T&)
 #define JSONCONS_N_MEMBER_DECODE(Prefix, P2,P3,Member, Count) JSONCONS_N_MEMBER_DECODE_LAST(Prefix, P2,P3,Member, Count)
 #define JSONCONS_N_MEMBER_DECODE_LAST(Prefix, P2,P3,Member, Count) \
     if (count++ >= num_params) { \
-        is_end = read_next_or_end(cursor, ec); \
+        is_end = skip_member_or_end(cursor, ec); \
         if (ec) \
         { \
             return result_type{jsoncons::unexpect, ec, cursor.line(), cursor.column()}; \
@@ -526,6 +572,11 @@ is_optional_value_set(const T&)
             } \
             return result_type{std::move(val)}; \
         } \
+        key = get_key(cursor, ec); \
+        if (ec) { \
+            return result_type{jsoncons::unexpect, ec, cursor.line(), cursor.column()}; \
+        } \
+        count = 0; \
     } \
     else if (!indices[num_params-Count] && key == object_names<value_type,char_type>::name(num_params-Count)) { \
         cursor.next(ec); \
@@ -852,7 +903,7 @@ else \
 #define JSONCONS_N_MEMBER_NAME_DECODE_6(Member, Name, Mode, Match, Into, From) JSONCONS_N_MEMBER_NAME_DECODE_7(Member, Name, Mode, Match, Into, From)
 #define JSONCONS_N_MEMBER_NAME_DECODE_7(Member, Name, Mode, Match, Into, From) \
     if (count++ >= num_params) { \
-        is_end = read_next_or_end(cursor, ec); \
+        is_end = skip_member_or_end(cursor, ec); \
         if (ec) \
         { \
             return result_type{jsoncons::unexpect, ec, cursor.line(), cursor.column()}; \
@@ -866,6 +917,11 @@ else \
             } \
             return result_type{std::move(val)}; \
         } \
+        key = get_key(cursor, ec); \
+        if (ec) { \
+            return result_type{jsoncons::unexpect, ec, cursor.line(), cursor.column()}; \
+        } \
+        count = 0; \
     } \
     else if (!indices[index] && key == Name) { \
         cursor.next(ec); \
@@ -938,7 +994,7 @@ else \
 #define JSONCONS_ALL_MEMBER_NAME_DECODE_6(Member, Name, Mode, Match, Into, From) JSONCONS_ALL_MEMBER_NAME_DECODE_7(Member, Name, Mode, Match, Into, From)
 #define JSONCONS_ALL_MEMBER_NAME_DECODE_7(Member, Name, Mode, Match, Into, From) \
    if (count++ >= num_params) { \
-       is_end = read_next_or_end(cursor, ec); \
+       is_end = skip_member_or_end(cursor, ec); \
        if (ec) \
        { \
            return result_type{jsoncons::unexpect, ec, cursor.line(), cursor.column()}; \
@@ -952,6 +1008,11 @@ else \
            } \
            return result_type{std::move(val)}; \
        } \
+       key = get_key(cursor, ec); \
+       if (ec) { \
+           return result_type{jsoncons::unexpect, ec, cursor.line(), cursor.column()}; \
+       } \
+       count = 0; \
    } \
    else if (!indices[index] && key == Name) { \
        cursor.next(ec); \
